@@ -848,7 +848,25 @@ impl VisitMut for FormatConcat {
         if !m.mac.path.is_ident("format") {
             return;
         }
-        let Ok(lit) = syn::parse2::<syn::LitStr>(m.mac.tokens.clone()) else { return };
+        use syn::parse::Parser;
+        let Ok(args) = syn::punctuated::Punctuated::<Expr, syn::Token![,]>::parse_terminated.parse2(m.mac.tokens.clone()) else {
+            return;
+        };
+        let mut args = args.into_iter();
+        let Some(Expr::Lit(syn::ExprLit { lit: syn::Lit::Str(lit), .. })) = args.next() else { return };
+        // positional `{}` placeholders take the remaining arguments (plain variables) in order
+        let mut positional: Vec<String> = vec![];
+        for a in args {
+            let a = match a {
+                Expr::Reference(r) => *r.expr,
+                other => other,
+            };
+            match a {
+                Expr::Path(p) if p.path.get_ident().is_some() => positional.push(p.path.get_ident().unwrap().to_string()),
+                _ => return,
+            }
+        }
+        positional.reverse();
         let s = lit.value();
         let mut pieces: Vec<String> = vec![];
         let mut text = String::new();
@@ -872,6 +890,12 @@ impl VisitMut for FormatConcat {
                             None => return,
                         }
                     }
+                    if id.is_empty() {
+                        match positional.pop() {
+                            Some(a) => id = a,
+                            None => return,
+                        }
+                    }
                     if syn::parse_str::<syn::Ident>(&id).is_err() {
                         return;
                     }
@@ -887,6 +911,9 @@ impl VisitMut for FormatConcat {
         }
         if !text.is_empty() {
             pieces.push(format!("{text:?}"));
+        }
+        if !positional.is_empty() {
+            return;
         }
         *e = syn::parse_str(&format!("str_concat([{}])", pieces.join(", "))).unwrap();
     }
